@@ -226,7 +226,7 @@ type ddState struct {
 }
 
 type elemKey struct {
-	al  *ssa.Alloc
+	al  ssa.Value // *ssa.Alloc (local array or struct) or *ssa.MakeSlice (a slice made in this function)
 	idx int64
 }
 
@@ -503,12 +503,10 @@ func (e *ddEngine) evalInstr(s *ddState, in ssa.Instruction, prev *ssa.BasicBloc
 				s.vals[x] = aval{k: kInt, i: int64(len(a.s))}
 				return
 			}
-			// the length of a slice made with a known length
-			if ms, ok := stripChangeType(cc.Args[0]).(*ssa.MakeSlice); ok {
-				if l := e.value(s, ms.Len); l.k == kInt {
-					s.vals[x] = l
-					return
-				}
+			// the length of a slice made with a known length, or of a slice over a local array literal
+			if n, ok := e.knownLen(s, cc.Args[0]); ok {
+				s.vals[x] = aval{k: kInt, i: n}
+				return
 			}
 		}
 		if sc := cc.StaticCallee(); sc != nil {
@@ -778,16 +776,17 @@ func switchCasesReturning(w *World, f *ssa.Function) map[int64]bool {
 	return out
 }
 
-// elemOf: addr is &local[i] (local array) or &local.f with i known on this path.
+// elemOf: addr is &local[i] (local array, or a slice made in this function — also when it is reached through a
+// phi or a slice expression over the array) or &local.f, with i known on this path.
 func (e *ddEngine) elemOf(s *ddState, addr ssa.Value) (elemKey, bool) {
 	switch x := addr.(type) {
 	case *ssa.IndexAddr:
-		al, ok := x.X.(*ssa.Alloc)
-		if !ok {
+		base := e.sliceBase(s, x.X)
+		if base == nil {
 			return elemKey{}, false
 		}
 		if i := e.value(s, x.Index); i.k == kInt {
-			return elemKey{al, i.i}, true
+			return elemKey{base, i.i}, true
 		}
 	case *ssa.FieldAddr:
 		if al, ok := x.X.(*ssa.Alloc); ok {
@@ -795,4 +794,51 @@ func (e *ddEngine) elemOf(s *ddState, addr ssa.Value) (elemKey, bool) {
 		}
 	}
 	return elemKey{}, false
+}
+
+// sliceBase: the local array or made slice that v denotes on this path (nil when unknown).
+func (e *ddEngine) sliceBase(s *ddState, v ssa.Value) ssa.Value {
+	for i := 0; i < 6; i++ {
+		switch x := v.(type) {
+		case *ssa.Alloc:
+			return x
+		case *ssa.MakeSlice:
+			return x
+		case *ssa.ChangeType:
+			v = x.X
+			continue
+		case *ssa.Slice:
+			if x.Low == nil && x.High == nil {
+				v = x.X
+				continue
+			}
+			return nil
+		case *ssa.Phi, *ssa.UnOp, *ssa.Extract:
+			a := e.value(s, v)
+			if a.k == kSym && a.sym != nil && a.sym != v {
+				v = a.sym
+				continue
+			}
+			return nil
+		}
+		return nil
+	}
+	return nil
+}
+
+// knownLen: the length of the array or made slice v denotes on this path.
+func (e *ddEngine) knownLen(s *ddState, v ssa.Value) (int64, bool) {
+	switch b := e.sliceBase(s, v).(type) {
+	case *ssa.MakeSlice:
+		if l := e.value(s, b.Len); l.k == kInt {
+			return l.i, true
+		}
+	case *ssa.Alloc:
+		if p, ok := b.Type().Underlying().(*types.Pointer); ok {
+			if arr, ok := p.Elem().Underlying().(*types.Array); ok {
+				return arr.Len(), true
+			}
+		}
+	}
+	return 0, false
 }
